@@ -76,11 +76,15 @@ func (f *foldStore) classOf(kind, id string) (int, bool) {
 	return c.(int), true
 }
 
-func (f *foldStore) Set(k string, v any, ttl time.Duration) error  { return f.inner.Set(f.fold(k, false), v, ttl) }
-func (f *foldStore) Get(k string) (any, error)                     { return f.inner.Get(f.fold(k, false)) }
-func (f *foldStore) Delete(k string) error                         { return f.inner.Delete(f.fold(k, false)) }
-func (f *foldStore) Exists(k string) (bool, error)                 { return f.inner.Exists(f.fold(k, false)) }
-func (f *foldStore) SetExpiration(k string, d time.Duration) error { return f.inner.SetExpiration(k, d) }
+func (f *foldStore) Set(k string, v any, ttl time.Duration) error {
+	return f.inner.Set(f.fold(k, false), v, ttl)
+}
+func (f *foldStore) Get(k string) (any, error)     { return f.inner.Get(f.fold(k, false)) }
+func (f *foldStore) Delete(k string) error         { return f.inner.Delete(f.fold(k, false)) }
+func (f *foldStore) Exists(k string) (bool, error) { return f.inner.Exists(f.fold(k, false)) }
+func (f *foldStore) SetExpiration(k string, d time.Duration) error {
+	return f.inner.SetExpiration(k, d)
+}
 func (f *foldStore) GetExpiration(k string) (time.Duration, error) { return f.inner.GetExpiration(k) }
 func (f *foldStore) CleanupExpired() error                         { return f.inner.CleanupExpired() }
 func (f *foldStore) Close() error                                  { return nil }
